@@ -28,6 +28,8 @@
 #include "common/session.h"
 #include "common/wirepeer.h"
 #include "common/mseinit.h"
+#include "download/download_main.h"
+#include "protocol/initial_seed.h"
 #include "protocol/peer_connection_base.h"
 #include "torrent/exceptions.h"
 
@@ -37,7 +39,7 @@ static std::map<std::string, Torrent*> g_torrents;
 static uint32_t g_case_no = 0;
 
 static Torrent* get_torrent(Session& S, const std::string& key, uint32_t plen, uint64_t total,
-                            const std::string& done, uint32_t seed, const std::string& files) {
+                            const std::string& done, uint32_t seed, const std::string& files, bool iseed) {
   auto it = g_torrents.find(key);
   if (it != g_torrents.end()) return it->second;
   TorrentSpec spec;
@@ -64,7 +66,9 @@ static Torrent* get_torrent(Session& S, const std::string& key, uint32_t plen, u
     if (done[i] != '1') spec.corrupt_pieces.push_back((uint32_t)i);
   Torrent* T = S.add_torrent(spec);
   if (T->completed_bits() != done) throw std::runtime_error("hash check gave " + T->completed_bits() + " wanted " + done);
+  if (iseed) S.set_conn_type(T, (int)torrent::Download::CONNECTION_INITIAL_SEED);   // needs a complete torrent
   S.start(T);
+  if (iseed && T->main()->initial_seeding() == nullptr) throw std::runtime_error("initial seeding did not start");
   g_torrents[key] = T;
   return T;
 }
@@ -104,8 +108,12 @@ static std::string run_case(Session& S, const std::string& line) {
   auto ops = split_ws(line.substr(bar + 1));
   uint32_t plen = std::stoul(kv["plen"]), seed = std::stoul(kv["seed"]);
   uint64_t total = std::stoull(kv["total"]);
-  std::string key = kv["plen"] + "/" + kv["total"] + "/" + kv["done"] + "/" + kv["seed"] + "/" + kv["files"];
-  Torrent* T = get_torrent(S, key, plen, total, kv["done"], seed, kv["files"]);
+  // role=iseed: the torrent is started in initial-seeding mode (PeerConnection<CONNECTION_INITIAL_SEED>,
+  // src/protocol/initial_seed.cc): the library offers pieces with HAVE, may drop queued requests
+  // (should_upload) and choke on its own. Not modelled: such cases are judged by the property oracle only.
+  bool iseed = kv.count("role") && kv["role"] == "iseed";
+  std::string key = kv["plen"] + "/" + kv["total"] + "/" + kv["done"] + "/" + kv["seed"] + "/" + kv["files"] + (iseed ? "/iseed" : "");
+  Torrent* T = get_torrent(S, key, plen, total, kv["done"], seed, kv["files"], iseed);
 
   // no Manager tick inside a case: each later D:0 needs 11 s of virtual time
   int unchokes = 0;
@@ -117,17 +125,32 @@ static std::string run_case(Session& S, const std::string& line) {
   WirePeer P;
   std::string ip = "127." + std::to_string(1 + (g_case_no >> 16) % 100) + "." + std::to_string((g_case_no >> 8) & 255) + "." + std::to_string(g_case_no & 255);
   if (ip == "127.1.0.1" || (g_case_no & 255) == 0 || (g_case_no & 255) == 255) ip = "127.101.0." + std::to_string(1 + g_case_no % 250);
-  if (!P.connect_to(S.listen_port(), ip.c_str(), 1 << 20, 0)) return "ERR:connect";
+  // enc=1: MSE, RC4 stream. enc=2: MSE handshake, PLAINTEXT stream selected (crypto_select 1).
+  // out=1: the LIBRARY connects to the scripted peer (which then is the MSE responder; needs enc=1|2).
+  bool mse = kv.count("enc") && (kv["enc"] == "1" || kv["enc"] == "2");
+  bool enc = mse && kv["enc"] == "1";
+  bool outgoing = kv.count("out") && kv["out"] == "1";
+  if (outgoing && !mse) return "BADCASE:out-needs-mse";
   char idbuf[21];
   snprintf(idbuf, sizeof idbuf, "-LV0001-%012u", g_case_no);
-  bool enc = kv.count("enc") && kv["enc"] == "1";
-  MseInitiator M(P, 1000 + g_case_no);
-  if (enc && !M.negotiate(S, T->info_hash)) return "ERR:mse";
-  // R: the decrypted (or plain) receive side; all parsing below goes through it
-  WirePeer& R = enc ? M.plain : P;
-  auto absorb = [&]() { if (enc) M.absorb(); };
   std::string hello = WirePeer::handshake(T->info_hash, std::string(idbuf, 20)) + WirePeer::keepalive();
-  P.send_bytes(enc ? M.seal(hello) : hello);
+  MseInitiator MI(P, 1000 + g_case_no);
+  MseResponder MR(P, 1000 + g_case_no);
+  if (outgoing) {
+    uint16_t lport = P.listen_on(ip.c_str());
+    if (lport == 0) return "ERR:listen";
+    S.connect_out(T, ip, lport);
+    if (!MR.negotiate(S, T->info_hash, enc ? 2 : 1)) return "ERR:mse-out";
+  } else {
+    if (!P.connect_to(S.listen_port(), ip.c_str(), 1 << 20, 0)) return "ERR:connect";
+    if (mse && !MI.negotiate(S, T->info_hash, enc ? 2 : 1)) return "ERR:mse";
+    if (mse && MI.rc4() != enc) return "ERR:mse-select";
+  }
+  // R: the decrypted (or plain) receive side; all parsing below goes through it
+  WirePeer& R = !mse ? P : (outgoing ? MR.plain : MI.plain);
+  auto absorb = [&]() { if (mse) { if (outgoing) MR.absorb(); else MI.absorb(); } };
+  auto seal = [&](const std::string& x) { return !mse ? x : (outgoing ? MR.seal(x) : MI.seal(x)); };
+  P.send_bytes(seal(hello));
   pump(S, {&P});
   absorb();
   HandshakeIn hs;
@@ -138,7 +161,8 @@ static std::string run_case(Session& S, const std::string& line) {
   if (pcb0 == nullptr) return "ERR:noconn";
   if (pcb0->is_encrypted() != enc) return "ERR:stream-mode";
   // whatever the library says before the scenario starts (bitfield, interested) is not compared
-  { WireMsg m; while (R.next_message(m)) {} }
+  std::string haves;   // pieces offered with HAVE (initial seeding), prelude included
+  { WireMsg m; while (R.next_message(m)) if (m.id == WirePeer::HAVE && m.body.size() == 4) haves += (haves.empty() ? "" : ",") + std::to_string(m.u32(0)); }
   if (!R.rx.empty()) return "ERR:prelude";
   Session::set_send_budget(lip, port, 0);
 
@@ -176,7 +200,7 @@ static std::string run_case(Session& S, const std::string& line) {
       }
     } else if (kind == 'W') {
       int64_t k = o == "W:inf" ? (1ll << 40) : std::stoll(o.substr(2));
-      P.tx_pending += enc ? M.seal(batch) : batch;
+      P.tx_pending += seal(batch);
       batch.clear();
       for (int i = 0; i < 1000 && !P.tx_pending.empty(); i++) P.flush();
       if (!P.tx_pending.empty() && !P.eof) return "ERR:batch-does-not-fit";
@@ -215,6 +239,7 @@ static std::string run_case(Session& S, const std::string& line) {
       pay += ok ? "1" : "0";
     } else {
       other++;
+      if (m.id == WirePeer::HAVE && m.body.size() == 4) haves += (haves.empty() ? "" : ",") + std::to_string(m.u32(0));
     }
     if (keep) {
       MD5_Update(&md, before.data(), raw_len);
@@ -230,7 +255,7 @@ static std::string run_case(Session& S, const std::string& line) {
                     " q=" + (closed ? std::string("X") : S.dump_upload_queue(pcb));
   if (!R.rx.empty()) out += " trail=" + std::to_string(R.rx.size());
   if (!err.empty()) out += " " + err;
-  out += " || pay=" + (pay.empty() ? "-" : pay) + " other=" + std::to_string(other) + " eof=" + std::to_string(P.eof ? 1 : 0);
+  out += " || pay=" + (pay.empty() ? "-" : pay) + " other=" + std::to_string(other) + " have=" + (haves.empty() ? std::string("-") : haves) + " eof=" + std::to_string(P.eof ? 1 : 0);
 
   // tear the connection down before the next case; afterwards no chunk reference may be left
   P.close_all();
@@ -242,11 +267,13 @@ static std::string run_case(Session& S, const std::string& line) {
 
 int main() {
   std_setup();
+  Session::Config cfg;
+  cfg.enc_handshake_mode = 2;   // prefer: outgoing connections start with MSE; incoming plain ones stay allowed
   std::unique_ptr<Session> S;
   std::string line;
   while (std::getline(std::cin, line)) {
     try {
-      if (!S) S = std::make_unique<Session>();
+      if (!S) S = std::make_unique<Session>(cfg);
       std::cout << run_case(*S, line) << "\n";
     } catch (torrent::internal_error& e) {
       std::cout << "ERR:internal " << e.what() << "\n";
